@@ -24,7 +24,7 @@ Proof.
   intros Hr Hj Hc. unfold pf2_entry.
   assert (E : cp_mode_dot Op w [A; B; C] (OpMat (nth i Ps [])) 1 false = Ok (w, [A; matmul Op (nth i Ps []) B; C])).
   { unfold cp_mode_dot. cbn [length Nat.ltb Nat.leb nth]. rewrite Hr. reflexivity. }
-  pose proof (cp_mode_dot_matrix Op Rth _ _ _ _ _ _ _ [i; 0; k] j E eq_refl Hj Hc) as T.
+  destruct (cp_mode_dot_matrix Op Rth _ _ _ _ _ _ _ [i; 0; k] j E eq_refl Hj Hc) as [_ T].
   cbn [set_nth nth] in T. rewrite T. reflexivity.
 Qed.
 
@@ -43,7 +43,7 @@ Proof.
   rewrite (sumn_scale_l Op Rth). ring.
 Qed.
 
-Lemma decompress_projs_nth : forall Ps Ls i, length Ps = length Ls -> i < length Ps ->
+Lemma decompress_projs_nth : forall Ps Ls i, length Ps <= length Ls -> i < length Ps ->
   nth i (decompress_projs Op Ps Ls) [] = match nth i Ls None with Some Lm => matmul Op Lm (nth i Ps []) | None => nth i Ps [] end.
 Proof.
   induction Ps as [|P Ps IH]; intros [|L Ls] i Hl Hi; simpl in *; try lia.
@@ -58,7 +58,7 @@ Theorem svd_decompress_entry w A B C Ps Ls w' A' B' C' Ps' i j k :
       Sum (length (nth i Ps [])) (fun t => mget Op Lm j t *f pf2_entry Op w A B C Ps i t k)
   end.
 Proof.
-  unfold svd_decompress. destruct (Nat.eqb (length Ps) (length Ls)) eqn:Hl; [|discriminate]. apply Nat.eqb_eq in Hl.
+  unfold svd_decompress. destruct (length Ps <=? length Ls) eqn:Hl; [|discriminate]. apply Nat.leb_le in Hl.
   intros E Hi. injection E as <- <- <- <- <-. unfold pf2_entry. rewrite decompress_projs_nth by assumption.
   destruct (nth i Ls None) as [Lm|]; [|reflexivity]. intros Hj Hc.
   rewrite (sumn_ext Op _ _ (fun s => Sum (length (nth i Ps [])) (fun t => mget Op Lm j t *f (mget Op (nth i Ps []) t s *f cp_entry Op w [A; B; C] [i; s; k])))).
